@@ -11,7 +11,7 @@ NOT decided.  (DESIGN.md section 9.7.)
 from __future__ import annotations
 
 import ast
-from typing import List, Set
+from typing import Optional,  List, Set
 
 from ..cfg import enumerate_paths, RETURN
 from ..index import (AnalysisError, FuncInfo, ProgramIndex, body_without_docstring, calls_in, chain, norm, src)
@@ -62,6 +62,116 @@ def _roots(fi: FuncInfo, e: ast.AST, seen=None) -> Set[str]:
     return out
 
 
+# ---- C09-4: explicit (elementwise) Kronecker diagonals ---------------------------------------------------------------
+CONTROL_C09 = '''
+import torch
+class ControlMultitask:
+    def forward(self, x1, x2, diag=False, **params):
+        covar_i = self.task_covar_module.covar_matrix
+        data_diag = self.data_covar_module.forward(x1, x2, diag=True, **params)
+        task_diag = covar_i.diagonal(dim1=-1, dim2=-2)
+        good = data_diag.repeat_interleave(self.num_tasks, dim=-1) * task_diag.repeat(data_diag.size(-1))
+        bad = torch.tile(data_diag, (self.num_tasks,)) * torch.tile(task_diag, (data_diag.size(-1),))
+        return good if diag else bad
+'''
+
+
+def _replication(fi, e: ast.AST, depth: int = 0) -> Optional[str]:
+    """index map of a replicated vector: 'SLOW' (element i of the result is v[i // k]: repeat_interleave), 'FAST' (v[i % len(v)]:
+    tile / 1-d repeat), None if e is not a recognised replication"""
+    if isinstance(e, ast.Name) and depth < 4:
+        defs = [a.value for a in ast.walk(fi.node) if isinstance(a, ast.Assign) and len(a.targets) == 1 and isinstance(a.targets[0], ast.Name) and a.targets[0].id == e.id]
+        kinds = {_replication(fi, d, depth + 1) for d in defs}
+        return kinds.pop() if len(kinds) == 1 else None
+    if isinstance(e, ast.Call):
+        fn = chain(e.func) or ""
+        if fn in ("torch.tile", "torch.repeat_interleave") and e.args:
+            return "FAST" if fn == "torch.tile" else "SLOW"
+        if isinstance(e.func, ast.Attribute):
+            if e.func.attr == "repeat_interleave":
+                return "SLOW"
+            if e.func.attr in ("tile",):
+                return "FAST"
+            if e.func.attr == "repeat":
+                # repeats of the last axis tile the vector; leading 1s keep batch axes
+                lead = e.args[:-1]
+                if all(isinstance(a, ast.Constant) and a.value == 1 for a in lead) or all(isinstance(a, ast.Starred) for a in lead):
+                    return "FAST"
+                return None
+            if e.func.attr in ("to", "contiguous", "clone", "type_as"):
+                return _replication(fi, e.func.value, depth)
+    return None
+
+
+def _base_vector(fi, e: ast.AST, depth: int = 0) -> ast.AST:
+    """the vector that a replication expression replicates (its count arguments carry sizes of the *other* factor)"""
+    if isinstance(e, ast.Name) and depth < 4:
+        defs = [a.value for a in ast.walk(fi.node) if isinstance(a, ast.Assign) and len(a.targets) == 1 and isinstance(a.targets[0], ast.Name) and a.targets[0].id == e.id]
+        if len(defs) == 1 and _replication(fi, defs[0]) is not None:
+            return _base_vector(fi, defs[0], depth + 1)
+        return e
+    if isinstance(e, ast.Call) and _replication(fi, e) is not None:
+        fn = chain(e.func) or ""
+        if fn in ("torch.tile", "torch.repeat_interleave") and e.args:
+            return _base_vector(fi, e.args[0], depth + 1)
+        if isinstance(e.func, ast.Attribute):
+            return _base_vector(fi, e.func.value, depth + 1)
+    return e
+
+
+def explicit_products(idx: ProgramIndex, rep: Report, funcs):
+    """flat index = point * T + task (interleaved): in an elementwise product of a replicated data vector and a replicated task
+    vector the data factor must vary slowly (repeat_interleave by T) and the task factor fast (tile by n)."""
+    rep.rule("C09-4", "explicit Kronecker diagonals follow the interleaved layout: data factor repeat-interleaved (slow), task factor tiled (fast)")
+
+    def sites(fi, data_attr="data_covar_module", task_attr="task_covar_module"):
+        out = []
+        for n in ast.walk(fi.node):
+            pair = None
+            if isinstance(n, ast.BinOp) and isinstance(n.op, ast.Mult):
+                pair = (n.left, n.right)
+            elif isinstance(n, ast.Call) and isinstance(n.func, ast.Attribute) and n.func.attr in ("mul", "mul_") and len(n.args) == 1:
+                pair = (n.func.value, n.args[0])
+            if not pair:
+                continue
+            ra, rb = _roots(fi, _base_vector(fi, pair[0])), _roots(fi, _base_vector(fi, pair[1]))
+            da, ta = data_attr in ra, task_attr in ra
+            db, tb = data_attr in rb, task_attr in rb
+            if da and not ta and tb and not db:
+                out.append((n, pair[0], pair[1]))
+            elif db and not tb and ta and not da:
+                out.append((n, pair[1], pair[0]))
+        return out
+
+    # positive control: the rule must see one conforming and one violating product in the fragment
+    ctl = idx.load_source("gpytorch._verif_control_c09", CONTROL_C09)
+    try:
+        cf = ctl.classes["ControlMultitask"].methods["forward"]
+        got = sorted((_replication(cf, d), _replication(cf, t)) for _, d, t in sites(cf))
+        if got != [("FAST", "FAST"), ("SLOW", "FAST")]:
+            raise AnalysisError("C09-4: positive control not matched (%s)" % got)
+        rep.add("C09-4", "positive-control", "<control fragment>", True, "a tiled data factor is told apart from a repeat-interleaved one in the control fragment", trivial=True)
+    finally:
+        for k in [k for k in idx.classes if k[0] == "gpytorch._verif_control_c09"]:
+            ci = idx.classes.pop(k)
+            idx.by_name[ci.name].remove(ci)
+        del idx.modules["gpytorch._verif_control_c09"]
+    for fi in funcs:
+        for n, d, t in sites(fi):
+            kd, kt = _replication(fi, d), _replication(fi, t)
+            inst = "%s:%s[%s]" % (fi.module.name, fi.qualname, norm(n)[:60])
+            where = "%s:%d" % (fi.module.relpath, n.lineno)
+            if kd is None and kt is None:
+                rep.observe("C09-4", inst, where, "product of a data-derived and a task-derived factor without recognised replication: not an explicit Kronecker diagonal")
+                continue
+            bad = []
+            if kd == "FAST":
+                bad.append("the data factor `%s` is tiled (element i is data[i %% n]); the interleaved layout point*T+task needs data[i // T] (repeat_interleave)" % src(d)[:40])
+            if kt == "SLOW":
+                bad.append("the task factor `%s` is repeat-interleaved (element i is task[i // n]); the interleaved layout needs task[i %% T] (tile)" % src(t)[:40])
+            rep.add("C09-4", inst, where, not bad, "data slow, task fast" if not bad else "; ".join(bad), {"data": kd, "task": kt})
+
+
 def run(idx: ProgramIndex, rep: Report, tier: str):
     rep.explanation = (
         "Only structural clauses of C09 are decided: provenance (def-use closure to self attributes and parameters) of the two "
@@ -75,10 +185,13 @@ def run(idx: ProgramIndex, rep: Report, tier: str):
     fw = idx.method(MK, "forward", own=True)
     kr = [c for c in calls_in(fw.node) if (chain(c.func) or "").startswith("KroneckerProduct")]
     probs = []
-    if len(kr) != 1 or len(kr[0].args) != 2:
-        probs.append("expected one two-operand Kronecker product")
-    else:
-        a, b = _roots(fw, kr[0].args[0]), _roots(fw, kr[0].args[1])
+    if not kr:
+        probs.append("no Kronecker product of the data and the task covariance")
+    for k in kr:
+        if len(k.args) != 2:
+            probs.append("expected a two-operand Kronecker product")
+            continue
+        a, b = _roots(fw, k.args[0]), _roots(fw, k.args[1])
         if not ("data_covar_module" in a and "task_covar_module" not in a):
             probs.append("first Kronecker operand derives from %s, expected the data kernel" % sorted(a))
         if not ("task_covar_module" in b and "data_covar_module" not in b):
@@ -87,10 +200,11 @@ def run(idx: ProgramIndex, rep: Report, tier: str):
     # data kernel wiring
     dcalls = [c for c in calls_in(fw.node) if isinstance(c.func, ast.Attribute) and chain(c.func.value) == "self.data_covar_module" or chain(c.func) == "self.data_covar_module"]
     dcalls = [c for c in dcalls if isinstance(c, ast.Call) and len(c.args) >= 2]
-    ok = len(dcalls) == 1 and [src(x) for x in dcalls[0].args[:2]] == [fw.params[1], fw.params[2]]
+    ok = len(dcalls) >= 1 and all([src(x) for x in c.args[:2]] == [fw.params[1], fw.params[2]] for c in dcalls)
     nopi = MK.methods.get("num_outputs_per_input")
     ok2 = nopi is not None and any(src(r.value) == "self.num_tasks" for r in ast.walk(nopi.node) if isinstance(r, ast.Return) and r.value is not None)
     rep.add("C09-3", "%s:MultitaskKernel[wiring]" % MK.module.name, fw.where, ok and ok2, "data kernel on (x1, x2); num_outputs_per_input = num_tasks" if ok and ok2 else "MultitaskKernel does not evaluate the data kernel on (x1, x2) or does not report num_tasks outputs per input", {})
+    explicit_products(idx, rep, [fw] + [m for m in idx.find_class("LCMKernel").methods.values() if m.name == "forward"])
     # likelihood noise
     L = idx.find_class("_MultitaskGaussianLikelihoodBase")
     sn = idx.method(L, "_shaped_noise_covar", own=True)
